@@ -44,9 +44,9 @@ theorem c10_decoder_pred (i : C10.DecInput) : C10.decOk i (decModel i) = true :=
   · left; simpa using hw
 
 /-- non-vacuity: a plan with all three packet kinds (FU-A with an empty middle fragment) -/
-example : ([Item.single [0x65, 1, 2], .stapA [[0x67, 9], [0x68, 8, 7]], .fuA 0x41 [[1, 2], [], [3]]].all
+example : ([Item.single [0x65, 1, 2], .stapA 0x78 [[0x67, 9], [0x68, 8, 7]], .fuA 0x41 [[1, 2], [], [3]]].all
     Item.wf) = true := by decide
-example : encode [Item.single [0x65, 1, 2], .stapA [[0x67, 9], [0x68, 8, 7]], .fuA 0x41 [[1, 2], [], [3]]] =
+example : encode [Item.single [0x65, 1, 2], .stapA 0x78 [[0x67, 9], [0x68, 8, 7]], .fuA 0x41 [[1, 2], [], [3]]] =
     [[0x65, 1, 2], [0x78, 0, 2, 0x67, 9, 0, 3, 0x68, 8, 7], [0x5C, 0x81, 1, 2], [0x5C, 0x01], [0x5C, 0x41, 3]] := by
   decide
 
